@@ -35,7 +35,7 @@ class Contract:
                  raises=None, cases=None, split_len=None, loops=None, inline=(), use=(),
                  serves=(), modifies=None, ghost=None, build=None, pure=False, exc_ensures=None,
                  note='', old=(), assume_only=False, result_type=None, abstract_calls=None,
-                 result_cases=None, tactics=(), opaque=(), type_cases=(), split_on=(), mutates=()):
+                 result_cases=None, tactics=(), opaque=(), type_cases=(), split_on=(), mutates=(), options=None):
         self.qual = qual
         self.params = params or {}          # name -> type
         self.self_type = self_type          # Obj(...) for methods
@@ -65,6 +65,7 @@ class Contract:
         self.type_cases = list(type_cases)  # [(label, {param: type})]: alternative shapes of the inputs (complete split)
         self.split_on = list(split_on)  # boolean expressions; one case each, proved exhaustive (Or valid under requires)
         self.mutates = list(mutates)    # parameters (mutable abstract objects) whose value the function may change
+        self.options = dict(options or {})   # engine options for this function (e.g. abstract_vec_split)
         self.opaque = list(opaque)      # spec functions kept as uninterpreted functions (not unfolded)
         self.scope = _SCOPE[0]
         REGISTRY[qual] = self
